@@ -79,9 +79,13 @@ type caseOut struct {
 
 func ipStr(i int) string { return fmt.Sprintf("10.1.%d.%d", (i>>8)&255, i&255) }
 
-// list keys: an address, or (numbers >= 1000) the /28 that contains the addresses 16g .. 16g+15 (Model/Lockout.v cidr_of)
+// list keys (Model/Lockout.v keys_of): an address; 1000+g = the /28 holding the addresses 16g .. 16g+15;
+// 2000+g = the /27 holding 32g .. 32g+31 (every /28 lies inside a /27: overlapping ranges)
 func keyStr(i int) string {
-	if i >= 1000 {
+	switch {
+	case i >= 2000:
+		return fmt.Sprintf("10.1.0.%d/27", 32*(i-2000))
+	case i >= 1000:
 		return fmt.Sprintf("10.1.0.%d/28", 16*(i-1000))
 	}
 	return ipStr(i)
@@ -415,6 +419,34 @@ func runBurst(c *caseIn) *caseOut {
 	return out
 }
 
+// behavioural probe of the blacklist lookup: an entry in force covers the address while another matching entry has
+// lapsed.  exact: permanent /28 + lapsed exact entry;  range: permanent /27 + lapsed /28 inside it (first-match code
+// meets either first, depending on the map iteration).  Lost = trials in which the address was let through.
+func runShadow(c *caseIn) *caseOut {
+	out := &caseOut{Kind: "shadow", Trials: c.Trials}
+	for i := 0; i < c.Trials; i++ {
+		ctx, cancel := context.WithCancel(context.Background())
+		m := security.NewIPManager(storage.NewMemoryStorage(ctx), ctx)
+		addr := fmt.Sprintf("10.2.%d.40", i&255)
+		if c.Which == "exact" {
+			must(m.AddToBlacklist(fmt.Sprintf("10.2.%d.32/28", i&255), 0, "range", "admin"))
+			must(m.AddToBlacklist(addr, 3*time.Millisecond, "short exact", "admin"))
+		} else {
+			must(m.AddToBlacklist(fmt.Sprintf("10.2.%d.32/27", i&255), 0, "wide range", "admin"))
+			must(m.AddToBlacklist(fmt.Sprintf("10.2.%d.32/28", i&255), 3*time.Millisecond, "short range", "admin"))
+		}
+		if ok, _ := m.IsAllowed(addr); ok {
+			out.PreNotExpired++ // not refused while everything is in force: never expected
+		}
+		time.Sleep(8 * time.Millisecond)
+		if ok, _ := m.IsAllowed(addr); ok {
+			out.Lost++
+		}
+		cancel()
+	}
+	return out
+}
+
 func runCase(raw []byte) *caseOut {
 	var c caseIn
 	must(json.Unmarshal(raw, &c))
@@ -427,6 +459,8 @@ func runCase(raw []byte) *caseOut {
 		return runInflight(&c)
 	case "burst":
 		return runBurst(&c)
+	case "shadow":
+		return runShadow(&c)
 	}
 	panic("bad kind " + c.Kind)
 }
